@@ -241,7 +241,7 @@ Definition enc_enum (numeric : bool) (root : list (string * Z))
   | None =>
     match index_of_last numeric d sroot 0 with
     | Some i => Ok (to_bits (enum_root_bits root) i)
-    | None => Err (EForeign "KeyError")
+    | None => Err EEncode
     end
   | Some adds =>
     match index_of_last numeric d sroot 0 with
@@ -249,7 +249,7 @@ Definition enc_enum (numeric : bool) (root : list (string * Z))
     | None =>
       match index_of_last numeric d adds 0 with
       | Some j => let* r := enc_small_nonneg j in Ok (true :: r)
-      | None => Err (EForeign "KeyError")
+      | None => Err EEncode
       end
     end
   end.
@@ -607,31 +607,51 @@ Section Composite.
       let* bs := enc_root ms data in
       if all_false bs && (length bs =? length (filter has_presence_bit ms))%nat then Ok [] else Ok bs.
 
-    (** One entry per addition that was processed before the first
-        EncodeError: [Some bits] when present.  [except EncodeError: pass]
-        makes the failing addition and all later ones absent. *)
+    (** Does encode_root of this group fail because a mandatory member is
+        missing (an EncodeError without location), before any error raised
+        inside a present member? *)
+    Fixpoint group_missing_first (ms : list (member_of ty)) (data : list (string * value)) : bool :=
+      match ms with
+      | [] => false
+      | m :: r =>
+        match lookup (m_name m) data with
+        | None => match m_opt m with Mandatory => true | _ => group_missing_first r data end
+        | Some _ => match enc_member m data false with
+                    | Ok _ => group_missing_first r data
+                    | Err _ => false
+                    end
+        end
+      end.
+
+    (** One entry per addition that was processed before the first missing
+        one: [Some bits] when present.  [except EncodeError as e: if
+        e.location: raise] makes a missing addition (an error without
+        location) and all later ones absent; an error raised inside a present
+        addition carries a location and propagates. *)
     Fixpoint enc_adds (adds : list (addition_of ty)) (data : list (string * value))
       : result (list (option bits)) :=
       match adds with
       | [] => Ok []
       | (isgroup, ms) :: r =>
-        let one :=
-            if isgroup then
-              let* bs := enc_group ms data in Ok (bs, false)
-            else
-              match ms with
-              | [m] =>
-                let* bs := enc_member m data true in
-                Ok (bs, match lookup (m_name m) data with Some _ => true | None => false end)
-              | _ => Err EUnmodelled
-              end in
-        match one with
-        | Err EEncode => Ok []
-        | Err x => Err x
-        | Ok (bs, named_present) =>
-          let* rest := enc_adds r data in
-          Ok ((if (0 <? length bs)%nat || named_present then Some bs else None) :: rest)
-        end
+        if isgroup then
+          if group_missing_first ms data then Ok []
+          else
+            let* bs := enc_group ms data in
+            let* rest := enc_adds r data in
+            Ok ((if (0 <? length bs)%nat then Some bs else None) :: rest)
+        else
+          match ms with
+          | [m] =>
+            match lookup (m_name m) data, m_opt m with
+            | None, Mandatory => Ok []
+            | found, _ =>
+              let* bs := enc_member m data true in
+              let* rest := enc_adds r data in
+              Ok ((if (0 <? length bs)%nat || match found with Some _ => true | None => false end
+                   then Some bs else None) :: rest)
+            end
+          | _ => Err EUnmodelled
+          end
       end.
 
     Fixpoint enc_open_types (l : list (option bits)) : result bits :=
